@@ -77,6 +77,8 @@ pub struct FsState
     /// when Some: at the start of every execute_command, (index into `calls`, script lines, all files outside
     /// the ruler directory at that instant)
     pub exec_snapshots : Option<Vec<(usize, Vec<String>, BTreeMap<String, Vec<u8>>)>>,
+    /// yield to the scheduler before every System call (default: only calls on the cache directory and commands)
+    pub yield_all : bool,
 }
 
 #[derive(Clone)]
@@ -216,6 +218,19 @@ impl FsState
     }
 }
 
+/// Scheduler yield before a System call. Only calls that touch state shared between rule threads — the
+/// cache directory — and command executions are schedule-relevant: everything else a rule thread does
+/// concerns its own targets, or sources whose producer it has already heard from. With `yield_all`
+/// every call yields (a much larger schedule space, used for part of the thorough tier).
+fn sched_yield(state : &Arc<Mutex<FsState>>, path : &str, path2 : &str)
+{
+    let all = state.lock().unwrap().yield_all;
+    if all || path.contains("/cache") || path2.contains("/cache")
+    {
+        verif_sched::yield_point();
+    }
+}
+
 pub struct MemFile
 {
     state : Arc<Mutex<FsState>>,
@@ -257,7 +272,7 @@ impl io::Write for MemFile
         {
             return Err(io::Error::new(io::ErrorKind::Other, "file not open for writing"));
         }
-        verif_sched::yield_point();
+        sched_yield(&self.state, &self.path, "");
         let mut g = self.state.lock().unwrap();
         let n = match g.write_chunk { Some(k) => std::cmp::min(std::cmp::max(k, 1), buf.len()), None => buf.len() };
         if n == 0 { return Ok(0); }
@@ -304,6 +319,7 @@ impl MemSys
                 commands : vec![],
                 in_command : false,
                 exec_snapshots : None,
+                yield_all : false,
             })),
         }
     }
@@ -486,7 +502,7 @@ impl System for MemSys
 
     fn open(&self, path : &str) -> Result<Self::File, SystemError>
     {
-        verif_sched::yield_point();
+        sched_yield(&self.state, path, "");
         let mut g = self.state.lock().unwrap();
         let r =
         match g.disk.files.get(path)
@@ -500,7 +516,7 @@ impl System for MemSys
 
     fn create_file(&mut self, path : &str) -> Result<Self::File, SystemError>
     {
-        verif_sched::yield_point();
+        sched_yield(&self.state, path, "");
         let mut g = self.state.lock().unwrap();
         g.before_mutation(format!("create_file {}", path));
         let r = g.write_whole(path, &[]);
@@ -514,7 +530,7 @@ impl System for MemSys
 
     fn create_dir(&mut self, path : &str) -> Result<(), SystemError>
     {
-        verif_sched::yield_point();
+        sched_yield(&self.state, path, "");
         let mut g = self.state.lock().unwrap();
         g.before_mutation(format!("create_dir {}", path));
         let r =
@@ -532,7 +548,7 @@ impl System for MemSys
 
     fn is_dir(&self, path : &str) -> bool
     {
-        verif_sched::yield_point();
+        sched_yield(&self.state, path, "");
         let mut g = self.state.lock().unwrap();
         let r = g.disk.is_dir(path);
         g.record("is_dir", path, "", r, false);
@@ -541,7 +557,7 @@ impl System for MemSys
 
     fn is_file(&self, path : &str) -> bool
     {
-        verif_sched::yield_point();
+        sched_yield(&self.state, path, "");
         let mut g = self.state.lock().unwrap();
         let r = g.disk.is_file(path);
         g.record("is_file", path, "", r, false);
@@ -550,7 +566,7 @@ impl System for MemSys
 
     fn list_dir(&self, path : &str) -> Result<Vec<String>, SystemError>
     {
-        verif_sched::yield_point();
+        sched_yield(&self.state, path, "");
         let g = self.state.lock().unwrap();
         if !g.disk.is_dir(path)
         {
@@ -570,7 +586,7 @@ impl System for MemSys
 
     fn rename(&mut self, from : &str, to : &str) -> Result<(), SystemError>
     {
-        verif_sched::yield_point();
+        sched_yield(&self.state, from, to);
         let mut g = self.state.lock().unwrap();
         g.before_mutation(format!("rename {} {}", from, to));
         let dest_state = match (g.disk.files.get(from), g.disk.files.get(to))
@@ -587,7 +603,7 @@ impl System for MemSys
 
     fn get_modified(&self, path : &str) -> Result<SystemTime, SystemError>
     {
-        verif_sched::yield_point();
+        sched_yield(&self.state, path, "");
         let mut g = self.state.lock().unwrap();
         let r =
         match g.disk.files.get(path)
@@ -605,7 +621,7 @@ impl System for MemSys
 
     fn is_executable(&self, path : &str) -> Result<bool, SystemError>
     {
-        verif_sched::yield_point();
+        sched_yield(&self.state, path, "");
         let mut g = self.state.lock().unwrap();
         let r =
         match g.disk.files.get(path)
@@ -619,7 +635,7 @@ impl System for MemSys
 
     fn set_is_executable(&mut self, path : &str, executable : bool) -> Result<(), SystemError>
     {
-        verif_sched::yield_point();
+        sched_yield(&self.state, path, "");
         let mut g = self.state.lock().unwrap();
         g.before_mutation(format!("set_is_executable {}", path));
         let r =
